@@ -1,5 +1,6 @@
 import QuiverModel.Lemmas.VM.Sound
 import QuiverModel.Lemmas.VM.Rename
+import QuiverModel.Lemmas.VM.Repl
 /-
 C07 — every function the compiler emits is well-formed bytecode.
 
@@ -186,7 +187,7 @@ theorem entryWF_spawn {P : Prog} {fi : Nat} {fn : Function} {caps : List Val} {a
     (hfn : P.functions[fi]? = some fn) (hlen : caps.length = fn.captures)
     (hcaps : AllWF P caps) (harg : arg.wf P = true) :
     EntryWF P 0 (Proc.spawn pid fi caps arg persistent) where
-  frame := ⟨_, fn, rfl, rfl, hfn, hlen, by simp [Proc.spawn, Frame.new, hlen]⟩
+  frame := ⟨_, fn, rfl, rfl, hfn, fun _ => hlen, by simp [Proc.spawn, Frame.new, hlen]⟩
   stack := by simp [Proc.spawn]
   stackWF := by simpa [Proc.spawn] using ⟨harg, AllWF.nil⟩
   localsWF := hcaps
@@ -291,6 +292,62 @@ example : Renames ⟨(· + 1), (· + 1), (· + 1), (· + 1), (· + 1)⟩
     subst h
     exact ⟨_, rfl, rfl, by simp [Renaming.instr]⟩
   builtin := by intro i hi; simp at hi
+
+
+/-- **Soundness for REPL continuation lines.** The executor runs `P`, in which the line's function
+`f0` has `captures = 0` although it starts with the session's `n` variables as locals. If `P`
+*viewed with `captures(f0) := n`* is certified (`AllChecked (P.withCaptures f0 n) A` — this is what
+the harness certifies for a continuation line) and no instruction builds a closure of `f0`
+(`Function(f0)` occurs nowhere: a REPL line function is never referenced), then every state
+reachable **in `P`** from a REPL entry state satisfies the invariant (for the view) and no
+transition **of `P`** fails structurally. -/
+theorem checkAnn_sound_repl {P : Prog} {A : Array Anns} {f0 n s0 : Nat}
+    (hA : AllChecked (P.withCaptures f0 n) A)
+    (hno : ∀ (f : Nat) (fn : Function), P.functions[f]? = some fn → Instr.function f0 ∉ fn.instructions.toList)
+    {p0 p : Proc} (h0 : ReplEntry P f0 n s0 p0) (hr : ReplReach P f0 n p0 p) :
+    Inv (P.withCaptures f0 n) A s0 p ∧
+    ∀ ev, EventWF (P.withCaptures f0 n) ev → ∀ e, transition P p ev = some (.error e) →
+      e.isStructural = false := by
+  have hreach : ReachWF (P.withCaptures f0 n) p0 p := by
+    induction hr with
+    | refl => exact .refl _
+    | step _ hev htr ih =>
+      exact .step ih hev (by rw [transition_withCaptures P f0 n hno]; exact htr)
+  obtain ⟨hinv, herr⟩ := checkAnn_sound_full hA (replEntry_entryWF h0) hreach
+  refine ⟨hinv, ?_⟩
+  intro ev hev e htr
+  exact herr ev hev e (by rw [transition_withCaptures P f0 n hno]; exact htr)
+
+/-- A REPL continuation line that reads the session's first variable: drop the previous result,
+load local 0. As a function of `P` (captures 0) it is *not* certifiable … -/
+def exRepl : Prog :=
+  { constants := #[], functions := #[{ instructions := #[.pop, .load 0], captures := 0, typeId := 0 }],
+    tuples := #[0, 0], types := 1, builtins := 0 }
+
+example : checkAnn exRepl 0 (inferAnn exRepl 0) = false := by decide +kernel
+
+/-- … but it is under the view with its one entry local as captures, no instruction references it,
+and the resumed REPL process is a `ReplEntry` state (hypotheses of `checkAnn_sound_repl`). -/
+example : AllChecked (exRepl.withCaptures 0 1) #[inferAnn (exRepl.withCaptures 0 1) 0] := by
+  intro f hf
+  have : f = 0 := by simp [exRepl, Prog.withCaptures] at hf; omega
+  subst this
+  decide +kernel
+
+example : ∀ (f : Nat) (fn : Function), exRepl.functions[f]? = some fn → Instr.function 0 ∉ fn.instructions.toList := by
+  intro f fn h
+  have hf : f = 0 := by
+    have := (Array.getElem?_eq_some_iff.mp h).1
+    simp [exRepl] at this; omega
+  subst hf
+  simp [exRepl] at h
+  subst h
+  decide
+
+example : ReplEntry exRepl 0 1 0
+    { stack := [.int 7], locals := [.int 5], frames := [⟨0, 0, 0, 0⟩], persistent := true } :=
+  ⟨⟨_, _, rfl, rfl, rfl, rfl, by decide, by decide⟩, rfl,
+   by intro v hv; simp at hv; subst hv; rfl, by intro v hv; simp at hv; subst hv; rfl, rfl, rfl, rfl⟩
 
 /-! ### Examples: the hypotheses are satisfiable by concrete, non-trivial objects -/
 
